@@ -68,7 +68,7 @@ def write_file(rng, p, size=None):
     data = rng.randbytes(size) if size < 100000 else rng.randbytes(1000) * (size // 1000)
     with open(p, "wb") as f:
         f.write(data)
-    os.chmod(p, rng.choice((0o644, 0o600, 0o400, 0o444, 0o755, 0o711, 0o640, 0o777, 0o604)))
+    os.chmod(p, rng.choice((0o644, 0o600, 0o400, 0o444, 0o755, 0o711, 0o640, 0o777, 0o604, 0o000, 0o4711, 0o001)))
     set_mtime(rng, p)
 
 
@@ -253,7 +253,7 @@ def modify(rng, src):
         elif step == "mode_only" and files:
             p = rng.choice(files)
             cur = stat.S_IMODE(os.lstat(p).st_mode)
-            os.chmod(p, rng.choice([m for m in (0o644, 0o600, 0o400, 0o444, 0o640, 0o755, 0o604) if m != cur]))
+            os.chmod(p, rng.choice([m for m in (0o644, 0o600, 0o400, 0o444, 0o640, 0o755, 0o604, 0o000, 0o004) if m != cur]))
         elif step == "kind_change" and ents:
             p = rng.choice(ents)
             isdir = os.path.isdir(p) and not os.path.islink(p)
